@@ -103,6 +103,20 @@ func (env *SpecEnv) call(x ECall, hint types.Type) Value {
 			return Term{S: sx("=", sx("(_ map and)", a.S, b.S), sx(sx("as const", tc.sortOf(a.T)), "false")), T: types.Typ[types.Bool]}
 		case "allocated":
 			a := env.evalTerm(x.Args[0], nil)
+			if isInterface(a.T) {
+				// an interface value: the object its pointer payload (if it holds a pointer) refers to is allocated
+				al := ex.allocSet(env.st)
+				var cs []string
+				if it, ok := a.T.Underlying().(*types.Interface); ok && it.NumMethods() > 0 {
+					for _, c := range ex.prog.implementers(a.T) {
+						if _, isPtr := c.Underlying().(*types.Pointer); isPtr {
+							ctor := tc.dynCtor(c)
+							cs = append(cs, sImp(sx("(_ is "+ctor+")", a.S), sx("select", al, sx("un"+ctor, a.S))))
+						}
+					}
+				}
+				return Term{S: sAnd(cs...), T: types.Typ[types.Bool]}
+			}
 			return Term{S: sx("select", ex.allocSet(env.st), a.S), T: types.Typ[types.Bool]}
 		case "fresh":
 			// fresh(r): r was not allocated in the old state
@@ -661,12 +675,21 @@ func (ex *Exec) ghostCur(st *State, comp string) string {
 	return n
 }
 
+// boxTo: implicit conversion of a concrete value to an interface-typed ghost index / parameter.
+func (env *SpecEnv) boxTo(t Term, pt types.Type) Term {
+	if isInterface(pt) && !isInterface(t.T) && env.ex.dynRepresentable(t.T) {
+		env.tc().usesDyn = true
+		return Term{S: sx(env.tc().dynCtor(t.T), t.S), T: pt}
+	}
+	return t
+}
+
 func (env *SpecEnv) ghostRead(g *GhostDecl, args []Expr) Value {
 	if len(args) != 1 {
 		sfail("ghost %s takes one argument", g.Name)
 	}
 	comp, pt, rt := env.ex.ghostComp(env, g)
-	a := env.evalTerm(args[0], pt)
+	a := env.boxTo(env.evalTerm(args[0], pt), pt)
 	return Term{S: sx("select", env.ex.ghostCur(env.st, comp), a.S), T: rt}
 }
 
@@ -692,6 +715,6 @@ func (ex *Exec) ghostTarget(pre *SpecEnv, e Expr) (comp string, idx string, rt t
 	}
 	var pt types.Type
 	comp, pt, rt = ex.ghostComp(pre, g)
-	idx = pre.evalTerm(c.Args[0], pt).S
+	idx = pre.boxTo(pre.evalTerm(c.Args[0], pt), pt).S
 	return comp, idx, rt, true
 }
